@@ -181,7 +181,7 @@ func genSmem(rng *vh.Rng, class string, op int) SmemCase {
 	ls := uint64(1) << c.Lg
 	size := uint64(4) << uint(op)
 	c.Base = 0x300000000 + uint64(rng.Intn(1<<16))*128
-	c.MemI = make([]int, 512)
+	c.MemI = make([]int, 640)
 	for i := range c.MemI {
 		c.MemI[i] = rng.Intn(256)
 	}
@@ -227,10 +227,12 @@ func smemMain(seed uint64, n int, out, rep string) {
 	} else {
 		rng := vh.NewRng(seed)
 		for i := 0; i < n; i++ {
-			cases = append(cases, genSmem(rng.Fork(), "aligned", i%4))
+			class := "aligned"
+			if i%7 == 3 {
+				class = "unaligned" // both modes drop the two low address bits
+			}
+			cases = append(cases, genSmem(rng.Fork(), class, i%5))
 		}
-		cases = append(cases, genSmem(rng.Fork(), "unaligned", 0), genSmem(rng.Fork(), "unaligned", 2))
-		cases = append(cases, genSmem(rng.Fork(), "x16", 4))
 	}
 	writeOut(out, cases)
 }
